@@ -593,57 +593,76 @@ def rule_r3(ctx) -> List[R.Inst]:
 def rule_r4(ctx) -> List[R.Inst]:
     M = ctx.M
     rid = "C06.R4"
-    fn = M.fn(QUAMAP + "._read_notes")
+    from .. import seqexpr as SE
+    fn = M.nfn(QUAMAP + "._read_notes", comps=True)      # (an if/else-append loop reads as two filtered comprehensions)
     file = M.mods[fn.mod].rel
     insts = []
-    tests = [n for n in walk_no_nested(fn.node) if isinstance(n, ast.If) and isinstance(n.test, ast.Compare) and
-             isinstance(n.test.left, ast.Constant) and isinstance(n.test.ops[0], (ast.In, ast.NotIn))]
-    if len(tests) != 1:
-        # other shapes of the routing test: truthiness / None-test of n.get("EndTime")
-        gets = [n for n in walk_no_nested(fn.node) if isinstance(n, ast.If) and any(
-            isinstance(c, ast.Call) and call_name(c) == "get" and c.args and C.const_str(c.args[0]) == "EndTime"
-            for c in ast.walk(n.test))]
-        if len(gets) == 1:
-            t = gets[0].test
-            is_none = isinstance(t, ast.Compare) and isinstance(t.ops[0], (ast.Is, ast.IsNot)) and \
-                isinstance(t.comparators[0], ast.Constant) and t.comparators[0].value is None
-            if not is_none:
-                return [R.viol(rid, "route", file, gets[0].lineno,
-                               "objects are routed on the truth value of EndTime: a hold whose EndTime is 0 (a hold ending at "
-                               "time 0) is read as a hit; the format routes on the key's presence", construct=unparse(t))]
-        return [R.undec(rid, "route", file, fn.node.lineno, "routing test on a key's presence not found")]
-    t = tests[0]
-    keyname = t.test.left.value
-    neg = isinstance(t.test.ops[0], ast.NotIn)
+    env = SE.Env(fn.node)
+    src = [p for p in params_of(fn.node) if p != "self"][0]
 
-    def target(body):
-        for n in body:
-            for c in ast.walk(n):
-                if isinstance(c, ast.Call) and call_name(c) == "append" and isinstance(c.func.value, ast.Name):
-                    return c.func.value.id
+    def classify(flt: str) -> Optional[Tuple[str, str]]:
+        """(key, 'present' | 'absent' | 'truthy' | 'falsy' | 'is-none' | 'not-none') of a filter on the object `_`"""
+        try:
+            t = ast.parse(flt, mode="eval").body
+        except SyntaxError:
+            return None
+        pol = True
+        while isinstance(t, ast.UnaryOp) and isinstance(t.op, ast.Not):
+            t, pol = t.operand, not pol
+        if isinstance(t, ast.Compare) and len(t.ops) == 1 and isinstance(t.ops[0], (ast.In, ast.NotIn)) and isinstance(t.left, ast.Constant) and \
+                unparse(t.comparators[0]) in ("_", "_.keys()"):
+            present = isinstance(t.ops[0], ast.In) == pol
+            return (t.left.value, "present" if present else "absent")
+        g = [c for c in ast.walk(t) if isinstance(c, ast.Call) and call_name(c) == "get" and unparse(c.func.value) == "_" and c.args and C.const_str(c.args[0])]
+        if len(g) == 1:
+            k = C.const_str(g[0].args[0])
+            if isinstance(t, ast.Compare) and len(t.ops) == 1 and isinstance(t.ops[0], (ast.Is, ast.IsNot)) and \
+                    isinstance(t.comparators[0], ast.Constant) and t.comparators[0].value is None and t.left is g[0] and len(g[0].args) == 1:
+                none = isinstance(t.ops[0], ast.Is) == pol
+                return (k, "absent" if none else "present")      # n.get(k) is None: absent (or an explicit null, which has no end either)
+            if t is g[0]:
+                return (k, "truthy" if pol else "falsy")
         return None
-    absent_to, present_to = (target(t.body), target(t.orelse)) if neg else (target(t.orelse), target(t.body))
-    # which accumulator feeds which slot
-    feeds = {}
+    routes = {}          # slot -> (key, kind, node)
+    und = None
     for n in walk_no_nested(fn.node):
         if isinstance(n, ast.Assign) and C.self_attr(n.targets[0]) in ("hits", "holds"):
-            names = {x.id for x in ast.walk(n.value) if isinstance(x, ast.Name)}
-            for nm in (absent_to, present_to):
-                if nm in names:
-                    feeds[nm] = C.self_attr(n.targets[0])
-            fy = [c for c in ast.walk(n.value) if isinstance(c, ast.Call) and call_name(c) == "from_yaml"]
             slot = C.self_attr(n.targets[0])
+            fy = [c for c in ast.walk(n.value) if isinstance(c, ast.Call) and call_name(c) == "from_yaml"]
             want_cls = LISTS[slot].rsplit(".", 1)[1]
             if fy and unparse(fy[0].func.value) != want_cls:
                 insts.append(R.viol(rid, f"route:{slot}-class", file, n.lineno,
                                     f"self.{slot} is built by {unparse(fy[0].func.value)}.from_yaml, not {want_cls}",
                                     construct=unparse(n)[:120]))
-    if keyname == "EndTime" and feeds.get(absent_to) == "hits" and feeds.get(present_to) == "holds":
-        insts.append(R.ok(rid, "route", file, t.lineno, idiom="object without EndTime -> hits, with EndTime -> holds"))
+            arg = fy[0].args[0] if fy and fy[0].args else None
+            alts = SE.describe(arg, env.at.get(id(n), env.final)) if arg is not None else None
+            if not alts or len(alts) != 1:
+                und = f"the objects handed to {slot} are not a recognised sequence expression"
+                continue
+            sq = next(iter(alts))
+            if sq.base != src or sq.elt != "_" or len(sq.filters) != 1:
+                und = f"{slot} is fed from '{sq}'"
+                continue
+            c = classify(sq.filters[0])
+            if c is None:
+                und = f"the routing test '{sq.filters[0]}' is not a test on a key of the object"
+                continue
+            routes[slot] = (c[0], c[1], n)
+    if und is not None or set(routes) != {"hits", "holds"}:
+        insts.append(R.undec(rid, "route", file, fn.node.lineno, und or "routing test on a key's presence not found"))
     else:
-        insts.append(R.viol(rid, "route", file, t.lineno,
-                            f"objects are routed on '{keyname}': absent -> {feeds.get(absent_to)}, present -> {feeds.get(present_to)}; "
-                            f"the format says an object with an EndTime is a hold", construct=unparse(t.test)))
+        (kh, ch, nh), (ko, co, no) = routes["hits"], routes["holds"]
+        if {ch, co} & {"truthy", "falsy"}:
+            insts.append(R.viol(rid, "route", file, nh.lineno,
+                                "objects are routed on the truth value of EndTime: a hold whose EndTime is 0 (a hold ending at "
+                                "time 0) is read as a hit; the format routes on the key's presence", construct=f"hits: {ch}, holds: {co}"))
+        elif kh == ko == "EndTime" and ch == "absent" and co == "present":
+            insts.append(R.ok(rid, "route", file, nh.lineno, idiom="object without EndTime -> hits, with EndTime -> holds"))
+        else:
+            insts.append(R.viol(rid, "route", file, nh.lineno,
+                                f"objects are routed on '{kh}'/'{ko}': hits <- {ch}, holds <- {co}; "
+                                f"the format says an object with an EndTime is a hold (and every object is one of the two)",
+                                construct=f"hits <- {kh} {ch}; holds <- {ko} {co}"))
     for slot, must in (("hits", False), ("holds", True)):
         em, probs, wfn = writer_table(ctx, slot)
         f2 = M.mods[wfn.mod].rel
